@@ -203,6 +203,55 @@ def extract(repo):
     j = body.index('{', i)
     f['recv_unexpected_code'] = one_code(body[j:match_close(body, j)], 'poll_recv_data other frame')
     f['recv_err_via_fse'] = len(re.findall(r'handle_frame_stream_error_on_request_stream', body)) == 2
+    # poll_recv_trailers: the frame-sequence sites, the QPACK failure, the size limit, the malformed arm
+    body, spans['poll_recv_trailers'] = src.fn_body('poll_recv_trailers', after=src.text.index('pub struct RequestStream'))
+    k = body.find('Header::try_from(fields)')
+    if k < 0:
+        raise AnchorLost('trailers Header::try_from')
+    i = body.index('.map_err(', k)
+    j = body.index('(', i)
+    mal = body[j:match_close(body, j, '(', ')')]
+    m = re.search(r'stop_sending\(\s*Code::(\w+)\s*\)', mal)
+    f['trl_malformed_stop'] = m.group(1) if m else None
+    f['trl_malformed_stores'] = bool(STORE_RE.search(mal)) or bool(CLOSE_RE.search(mal))
+    if f['trl_malformed_stores']:
+        f['trl_malformed_variant'] = 'ConnectionError'
+        f['trl_malformed_code'] = one_code(re.sub(r'stop_sending\([^)]*\)', '', mal), 'trailers malformed arm')
+    else:
+        f['trl_malformed_variant'] = variant_in(mal)
+        m = re.search(r'StreamError::StreamError\s*\{\s*code:\s*Code::(\w+)', mal)
+        if not m:
+            raise AnchorLost('trailers malformed StreamError code')
+        f['trl_malformed_code'] = m.group(1)
+    head = body[:k]
+    i = head.find('DecoderError::HeaderTooLong')
+    if i < 0:
+        raise AnchorLost('trailers HeaderTooLong arm')
+    j = head.index('{', i)
+    big = head[j + 1:match_close(head, j)]
+    f['trl_toobig_variant'] = variant_in(big)
+    f['trl_toobig_stores'] = bool(STORE_RE.search(big)) or bool(CLOSE_RE.search(big))
+    after = head[match_close(head, j):]
+    cs = [c for c in codes_in(after) if c.startswith('QPACK')]
+    if not cs:
+        raise AnchorLost('trailers qpack failure code')
+    f['trl_qpack_code'] = cs[0]
+    seq = head[:i]
+    sites = re.findall(r'handle_connection_error_on_stream\(\s*InternalConnectionError::new\(\s*Code::(\w+)', seq)
+    if len(sites) != 2 or len(set(sites)) != 1:
+        raise AnchorLost('trailers unexpected-frame sites %s' % sites)
+    f['trl_unexpected_code'] = sites[0]
+    f['trl_err_via_fse'] = len(re.findall(r'handle_frame_stream_error_on_request_stream', seq)) == 2
+    f['trl_waits_for_end'] = bool(re.search(r'if\s*!\s*self\.stream\.is_eos\(\)', seq)) and \
+        bool(re.search(r'self\.trailers\s*=\s*Some\(trailers\)', seq))
+    # client wrapper: the cancel on HeaderTooBig
+    csrc = Source(repo + '/h3/src/client/stream.rs')
+    cb, spans['client_poll_recv_trailers'] = csrc.fn_body('poll_recv_trailers')
+    m = re.search(r'StreamError::HeaderTooBig[^}]*\}[^{]*\{[^}]*stop_sending\(\s*Code::(\w+)\s*\)', cb, re.S)
+    f['cli_trl_toobig_stop'] = m.group(1) if m else None
+    b, spans['send_trailers'] = src.fn_body('send_trailers', after=src.text.index('pub struct RequestStream'))
+    f['send_trailers_err_via_hq'] = bool(re.search(r'stream::write\([^;]*\)\s*\.await\s*\.map_err\(\|e\|\s*self\.handle_quic_stream_error\(e\)\)', b, re.S))
+    f['send_trailers_limit_cmp'] = bool(re.search(r'if\s+mem_size\s*>\s*max_mem_size', b))
     for fn in ('send_data', 'finish'):
         b, spans[fn] = src.fn_body(fn, after=src.text.index('pub struct RequestStream'))
         f['%s_err_via_hq' % fn] = bool(re.search(r'map_err\(\|e\|\s*self\.handle_quic_stream_error\(e\)\)', b)) and \
@@ -264,6 +313,20 @@ def render(f):
           '(* connection.rs RequestStream *)',
           'Definition recv_unexpected_code : N := %s.' % f['recv_unexpected_code'],
           'Definition recv_err_via_fse : bool := %s.' % b(f['recv_err_via_fse']),
+          '(* connection.rs RequestStream::poll_recv_trailers / send_trailers, client wrapper *)',
+          'Definition trl_malformed_code : N := %s.' % f['trl_malformed_code'],
+          'Definition trl_malformed_stop : option N := %s.' % optcode(f['trl_malformed_stop']),
+          'Definition trl_malformed_stores : bool := %s.' % b(f['trl_malformed_stores']),
+          'Definition trl_malformed_variant : sevariant := V%s.' % f['trl_malformed_variant'],
+          'Definition trl_toobig_variant : sevariant := V%s.' % f['trl_toobig_variant'],
+          'Definition trl_toobig_stores : bool := %s.' % b(f['trl_toobig_stores']),
+          'Definition trl_qpack_code : N := %s.' % f['trl_qpack_code'],
+          'Definition trl_unexpected_code : N := %s.' % f['trl_unexpected_code'],
+          'Definition trl_err_via_fse : bool := %s.' % b(f['trl_err_via_fse']),
+          'Definition trl_waits_for_end : bool := %s.' % b(f['trl_waits_for_end']),
+          'Definition cli_trl_toobig_stop : option N := %s.' % optcode(f['cli_trl_toobig_stop']),
+          'Definition send_trailers_err_via_hq : bool := %s.' % b(f['send_trailers_err_via_hq']),
+          'Definition send_trailers_limit_cmp : bool := %s.' % b(f['send_trailers_limit_cmp']),
           'Definition send_data_err_via_hq : bool := %s.' % b(f['send_data_err_via_hq']),
           'Definition finish_err_via_hq : bool := %s.' % b(f['finish_err_via_hq'])]
     return '\n'.join(L) + '\n'
